@@ -135,6 +135,72 @@ theorem fatal_is_hostPanic (isOut : Bool) :
     runUnwrap (toRunErr isOut (classify true .OpCallNative false false .fatalError)) = .hostPanic := by
   cases isOut <;> rfl
 
+/-! ## 1b. one level of nesting: Scriggo functions called back by native code -/
+
+/-- the values the wrapper of a Scriggo function called by native code (callable.Value) can
+re-panic with in the native caller, when the inner virtual machine's convertPanic has made a
+*PanicError of the payload p: the message of that PanicError -/
+def Repanics (hasFn : Bool) (op : Op) (neg nat : Bool) (p q : Payload) : Prop :=
+  match panicMsg hasFn op neg nat p with
+  | .none => False
+  | .scriggo => ∃ m, q = .scriggoRuntimeError m
+  | .same => q = p
+
+/-- where the outer virtual machine recovers what a native function panics with -/
+def outerNotFatal (q : Payload) : Prop :=
+  classify true .OpCallNative false false q ≠ .fatal ∧ classify true .OpCallIndirect false true q ≠ .fatal ∧
+  classify true .OpReturn false false q ≠ .fatal ∧ classify false .OpNone false false q ≠ .fatal
+
+theorem outer_scriggo (m : List UInt8) : outerNotFatal (.scriggoRuntimeError m) := by
+  refine ⟨?_, ?_, ?_, ?_⟩ <;> simp [classify, classifyOp, classifyNoFn, tail, Payload.isStopError, Payload.isOutError, Payload.isScriggoRuntimeError, Payload.isFatalError, Payload.isRuntimeError]
+
+theorem outer_of_not_goRuntime (q : Payload) (h1 : q ≠ .fatalError) (h2 : ∀ m, q ≠ .goRuntimeError m) : outerNotFatal q := by
+  cases q <;> simp_all [outerNotFatal, classify, classifyOp, classifyNoFn, tail, Payload.isStopError, Payload.isOutError, Payload.isScriggoRuntimeError, Payload.isFatalError, Payload.isRuntimeError]
+
+/-- the full statement: the classification is closed under one level of nesting -/
+def NestedClosed : Prop :=
+  ∀ hasFn op neg nat p q, canRaise hasFn op neg nat p = true → Repanics hasFn op neg nat p q → outerNotFatal q
+
+/-- it is false of the code today: `panic(nil)` inside a Scriggo function called back by native code
+raises a *runtime.PanicNilError, a runtime.Error that OpPanic keeps as the message, and the outer
+virtual machine makes a fatal error of any runtime.Error that is not Scriggo's own
+(known finding C05/callback-panic-nil) -/
+theorem nestedClosed_false : ¬ NestedClosed := by
+  intro h
+  have := (h true .OpPanic false false (.goRuntimeError []) (.goRuntimeError []) (by decide) (by simp [Repanics, panicMsg, panicMsgOp, Payload.isStopError, Payload.isOutError])).1
+  exact this (by decide)
+
+/-- **C05, nesting.** Whatever an operation of a Scriggo function called back by native code can
+raise, the value its wrapper re-panics with in the native caller (the message of the inner
+*PanicError, whose TYPE is regenerated: `panicMsg`) is not classified fatal by the outer virtual
+machine — at OpCallNative, at OpCallIndirect with a native callee, at OpReturn (a deferred native)
+and while no function is running. Missing part: a Go runtime.Error kept as the message by OpPanic
+(`nestedClosed_false`). -/
+theorem nested_not_fatal_partial (hasFn : Bool) (op : Op) (neg nat : Bool) (p q : Payload)
+    (hc : canRaise hasFn op neg nat p = true) (hr : Repanics hasFn op neg nat p q)
+    (hx : ¬ (op = .OpPanic ∧ ∃ m, p = .goRuntimeError m)) : outerNotFatal q := by
+  unfold Repanics at hr
+  split at hr
+  · exact hr.elim
+  · obtain ⟨m, rfl⟩ := hr; exact outer_scriggo m
+  · subst hr
+    rename_i hs
+    cases q with
+    | fatalError => simp [canRaise] at hc
+    | goRuntimeError m =>
+      exfalso
+      cases hasFn
+      · simp [canRaise] at hc
+      · simp only [canRaise, Bool.true_and] at hc
+        cases op <;> cases neg <;> simp only [goRuntime, Bool.false_eq_true] at hc <;>
+          simp_all [panicMsg, panicMsgOp, tailMsg, Payload.isRuntimeError, Payload.isString, Payload.isScriggoRuntimeError,
+            Payload.isFatalError, Payload.isError, Payload.isStopError, Payload.isOutError, Payload.msg, unhashable]
+    | _ => apply outer_of_not_goRuntime <;> simp
+
+-- non-vacuity: an index fault of a typed store inside a callback re-panics Scriggo's runtimeError
+example : Repanics true .OpSetSlice false false (.goRuntimeError (indexPfx ++ [32, 91, 51, 93])) (.scriggoRuntimeError []) := by
+  simp [Repanics, panicMsg, panicMsgOp, Payload.isStopError, Payload.isOutError, Payload.isRuntimeError, Payload.msg, isPrefix, indexPfx]
+
 /-! ## 2. the renderer's URL state machine -/
 open ScriggoV.URLState in
 /-- **C05, renderer.** For every sequence of `Text` and `Show` calls the emitter can produce
